@@ -64,7 +64,7 @@ OpStep(e) ==
           [] e.op = "t_extract_if" ->
                LET k == IF sel THEN take(e.j) ELSE 0
                IN <<n - k, Len(e.y) = k /\ Len(e.r) <= n /\ ((e.j < 0 \/ Len(e.y) < e.j) => Len(e.r) = n)>>
-          [] e.op = "drain" -> <<0, Len(e.y) = take(e.j)>>
+          [] e.op = "drain" -> <<0, Len(e.y) = (IF e.n = 2 THEN n ELSE take(e.j))>>
           [] e.op = "iter" -> <<n, Cardinality({i \in 1..Len(e.y) : e.y[i][1] # -7 /\ e.y[i][1] # -9}) = n>>
           [] e.op \in {"reserve", "shrink_to", "t_shrink_to_fit", "try_reserve", "clone"} -> <<n, TRUE>>
           [] e.op = "clone_from" -> <<cnt[u], TRUE>>
